@@ -7,8 +7,8 @@ S = os.path.join(HERE, "seeded")
 args = [a for a in sys.argv[1:] if not a.startswith("--")]
 notests = "--no-tests" in sys.argv
 desc = json.load(open(os.path.join(S, "descriptions.json")))
-names = args or sorted(d for d in os.listdir(S) if os.path.isdir(os.path.join(S, d)))
-EXTRA = {"C07-A": "C07,C04,C05", "C05-A": "C05,C04,C07", "C04-B": "C04,C07,C05", "C08-B": "C08,C03", "C03-B": "C03,C08"}
+names = args or sorted(d for d in os.listdir(S) if os.path.isdir(os.path.join(S, d)) and not d.startswith("_"))
+EXTRA = {"C11-I": "C11,C01", "C07-A": "C07,C04,C05", "C05-A": "C05,C04,C07", "C04-B": "C04,C07,C05", "C08-B": "C08,C03", "C03-B": "C03,C08"}
 
 def one(n):
     prop = n.split("-")[0]
